@@ -8,6 +8,7 @@ import warnings
 
 VERIF = os.path.dirname(os.path.dirname(os.path.abspath(__file__)))
 REPO = os.environ.get('VERIF_REPO', '/repo')
+OUT = os.environ.get('VERIF_OUT', VERIF)      # evidence/ and replays/ go here (scratch dir for runs against seeded copies)
 if VERIF not in sys.path:
     sys.path.insert(0, VERIF)
 if REPO not in sys.path:
@@ -255,7 +256,7 @@ def cmd_driver(prop, tier, only, jobs, seed):
     insts = H.instances(tier)
     if only:
         insts = [i for i in insts if only in i['name']]
-    for old in glob.glob(os.path.join(VERIF, 'replays', '%s-*.json' % prop)):
+    for old in glob.glob(os.path.join(OUT, 'replays', '%s-*.json' % prop)):
         os.unlink(old)
     default_timeout = getattr(H, 'TIMEOUT', {}).get(tier, 300 if tier == 'quick' else 1800)
     if tier == 'thorough':
@@ -364,8 +365,8 @@ def cmd_driver(prop, tier, only, jobs, seed):
                             notes=notes[:20],
                             exhaustive=False),
               assumptions=list(getattr(H, 'ASSUMPTIONS', [])) + COMMON_ASSUMPTIONS)
-    os.makedirs(os.path.join(VERIF, 'evidence'), exist_ok=True)
-    with open(os.path.join(VERIF, 'evidence', '%s.json' % prop), 'w') as f:
+    os.makedirs(os.path.join(OUT, 'evidence'), exist_ok=True)
+    with open(os.path.join(OUT, 'evidence', '%s.json' % prop), 'w') as f:
         json.dump(ev, f, indent=1)
     print('%s tier=%s instances=%d paths=%d obligations=%d discharged=%d inconclusive=%d violations=%d known=%d queries=%d solver=%.1fs wall=%.1fs'
           % (prop, tier, len(insts), states, obligations, discharged, inconclusive, len(violations), len(seen), queries, solver_s, wall))
